@@ -73,7 +73,11 @@ func (ur *usageTracker) NewReport(serviceName, version, hostname string, now tim
 	if err != nil {
 		return nil, err
 	}
-	// clear the current data points and keep the last data points until we know the report was sent
+	// clear the current data points and keep everything this report carried (including data points
+	// of earlier reports that were never confirmed) until we know a report was sent
+	for signal, usage := range ur.lastDataPoints {
+		ur.currentDataPoints[signal] += usage
+	}
 	ur.lastDataPoints = ur.currentDataPoints
 	ur.currentDataPoints = make(map[usageSignal]float64)
 	return data, nil
